@@ -650,7 +650,8 @@ func r075(c *Ctx, r *R) {
 		return
 	}
 	var stores []*ssa.Store
-	instrs(af, func(i ssa.Instruction) {
+	// in applyJSONConfig or in a helper extracted from it
+	instrsDeep(af, func(i ssa.Instruction) {
 		st, ok := i.(*ssa.Store)
 		if !ok {
 			return
@@ -695,7 +696,34 @@ func r075(c *Ctx, r *R) {
 		}
 		dom := false
 		for _, st := range stores {
-			if st.Block() == lf.Block || st.Block().Dominates(lf.Block) {
+			if st.Parent() == af {
+				if st.Block() == lf.Block || st.Block().Dominates(lf.Block) {
+					dom = true
+				}
+				continue
+			}
+			// in a helper: the helper is called on every path to this
+			// exit and the store is executed on every path through it
+			h := st.Parent()
+			site := singleCallSite[h]
+			if site == nil || site.Parent() != af {
+				continue
+			}
+			if site.Block() != lf.Block && !site.Block().Dominates(lf.Block) {
+				continue
+			}
+			always := true
+			for _, hb := range h.Blocks {
+				if hb == h.Recover || len(hb.Instrs) == 0 {
+					continue
+				}
+				if _, isRet := hb.Instrs[len(hb.Instrs)-1].(*ssa.Return); isRet {
+					if st.Block() != hb && !st.Block().Dominates(hb) {
+						always = false
+					}
+				}
+			}
+			if always {
 				dom = true
 			}
 		}
